@@ -117,12 +117,13 @@ def gen_cases(tier: str, seed: int):
     # that changed rows and metadata; once with the connection used as a context manager
     yield {"kind": "two_sessions"}
     for second in ("insert_more", "new_table"):
-        for keep in ("exception-kept", "connection-kept", "nothing-kept"):
+        for keep in ("exception-kept", "retry-in-handler", "connection-kept", "nothing-kept"):
             yield {"kind": "two_blocks", "second": second, "keep": keep}
     # a comment that is rolled back, followed by statements answered with the no-op status
     rb = ["CREATE TABLE T1 (ID INT, S VARCHAR(10)) COMMENT = 'first'", "INSERT INTO T1 VALUES (1, 'a')", "BEGIN", "COMMENT ON TABLE T1 IS 'never committed'",
           "ALTER TABLE T1 SET COMMENT = 'never committed either'", "ROLLBACK", "SET hv = 1", "ALTER TABLE T1 SET TAG cost = 'x'", "INSERT INTO T1 VALUES (2, 'b')"]
-    yield {"kind": "history", "history": rb, "stride": 3 if tier == "quick" else 1, "offset": 0, "with_conn": False}
+    yield {"kind": "history", "history": rb, "stride": 3 if tier == "quick" else 1, "offset": 0, "with_conn": False,
+           "expect_comments": [["S1", "T1", "first"]]}
     open_txn = ["CREATE TABLE T1 (ID INT, S VARCHAR(10)) COMMENT = 'first'", "INSERT INTO T1 VALUES (1, 'a'), (2, 'b')",
                 "CREATE TABLE T2 (ID INT, NAME VARCHAR(20)) COMMENT = 'all orders'", "INSERT INTO T2 VALUES (1, 'x')", "BEGIN",
                 "UPDATE T1 SET S = 'moved' WHERE ID = 1", "INSERT INTO T1 (ID, S) VALUES (500, 'tx')", "COMMENT ON TABLE T2 IS 'in txn'",
@@ -383,7 +384,11 @@ def run_case(case: dict, env: core.Env) -> None:
             if must_be is not None:
                 cands = [states[must_be]]
             if got in cands:
-                # metadata as a client reads it must reflect the same state
+                # an absolute expectation of the fixed histories: what a client reads after the whole history ran
+                if case.get("expect_comments") and must_be == len(history):
+                    seen = rec.get("meta", {}).get("DB1", {}).get("comments")
+                    if seen != case["expect_comments"]:
+                        env.witness(f"C18/never-committed-metadata-present/{tag}", f"{fault}: table comments read by a later process {seen} expected {case['expect_comments']}")
                 return
             # classify the difference against the acknowledged state
             exp = states[k] if must_be is None else states[must_be]
@@ -477,25 +482,22 @@ def _child_two_sessions(case_dir: str, db_dir: str, order: list, mode: str) -> N
             os._exit(4)
 
 
-def _child_two_blocks(case_dir: str, db_dir: str, second: str, keep: str) -> None:
-    """One process, two patch() blocks on the same path: the first commits and is left by an exception, the second commits more."""
-    import snowflake.connector
-
-    import fakesnow
-
-    kept: list = []
-    try:
-        with fakesnow.patch(db_path=db_dir):
-            conn = snowflake.connector.connect(database="db1", schema="s1")
-            cur = conn.cursor()
-            cur.execute("CREATE TABLE BATCHES (ID INT, S VARCHAR(10)) COMMENT = 'batches'")
-            cur.execute("INSERT INTO BATCHES VALUES (1, 'first')")
-            if keep == "connection-kept":
-                kept.append(conn)
-            raise RuntimeError("the first block fails after committing")
-    except RuntimeError as e:
-        if keep == "exception-kept":
-            kept.append(e)  # the traceback keeps the block's frame (and so its objects) alive
+_TWO_BLOCKS_SCRIPT = '''
+import os, sys
+import snowflake.connector
+import fakesnow
+db_dir, second, keep, done = sys.argv[1:5]
+kept = []
+def first_block():
+    with fakesnow.patch(db_path=db_dir):
+        conn = snowflake.connector.connect(database="db1", schema="s1")
+        cur = conn.cursor()
+        cur.execute("CREATE TABLE BATCHES (ID INT, S VARCHAR(10)) COMMENT = 'batches'")
+        cur.execute("INSERT INTO BATCHES VALUES (1, 'first')")
+        if keep == "connection-kept":
+            kept.append(conn)
+        raise RuntimeError("the first block fails after committing")
+def second_block():
     with fakesnow.patch(db_path=db_dir):
         conn2 = snowflake.connector.connect(database="db1", schema="s1")
         cur2 = conn2.cursor()
@@ -503,26 +505,37 @@ def _child_two_blocks(case_dir: str, db_dir: str, second: str, keep: str) -> Non
         if second == "new_table":
             cur2.execute("CREATE TABLE AUDIT (ID INT, NOTE VARCHAR(5)) COMMENT = 'audit'")
             cur2.execute("INSERT INTO AUDIT VALUES (1, 'ok')")
-    with open(os.path.join(case_dir, "done"), "w") as f:
-        f.write("done")
-    # the process ends normally, with whatever it kept still referenced
+try:
+    first_block()
+except RuntimeError as e:
+    if keep == "exception-kept":
+        kept.append(e)          # its traceback keeps the first block's frames (and objects) alive
+        second_block()
+    elif keep == "retry-in-handler":
+        second_block()          # the error is handled by loading the next batch, from inside the except block
+if keep not in ("exception-kept", "retry-in-handler"):
+    second_block()
+open(done, "w").write("done")
+# the interpreter shuts down normally, with whatever it kept still referenced
+'''
 
 
 def _two_blocks(case: dict, env: core.Env) -> None:
     base = tempfile.mkdtemp(prefix="fsverif-c18b-")
     try:
+        import subprocess
+
         os.makedirs(os.path.join(base, "db"))
-        how, code = _fork(_child_two_blocks, base, os.path.join(base, "db"), case["second"], case["keep"])
+        # a real interpreter (not a fork that ends with os._exit): objects the script kept die at a normal shutdown
+        repo = os.environ.get("FSVERIF_REPO", "/repo")
+        try:
+            pr = subprocess.run([sys.executable, "-B", "-c", _TWO_BLOCKS_SCRIPT, os.path.join(base, "db"), case["second"], case["keep"], os.path.join(base, "done")],
+                                capture_output=True, text=True, timeout=120, env={**os.environ, "PYTHONPATH": repo}, cwd=base)
+        except subprocess.TimeoutExpired:
+            raise core.Inconclusive("two-block watchdog") from None
         env.count("fault_runs")
-        if how == "timeout":
-            raise core.Inconclusive("two-block watchdog")
-        if (how, code) != ("exit", 0) or not os.path.exists(os.path.join(base, "done")):
-            err = ""
-            try:
-                err = open(os.path.join(base, "child_error.txt")).read()[-400:]
-            except OSError:
-                pass
-            env.witness(f"C18/two-blocks/child-failed/{case['keep']}", f"{how} {code}: {err}")
+        if pr.returncode != 0 or not os.path.exists(os.path.join(base, "done")):
+            env.witness(f"C18/two-blocks/child-failed/{case['keep']}", f"rc={pr.returncode}: {pr.stderr[-400:]}")
             return
         how2, code2 = _fork(_child_recover, base, os.path.join(base, "db"), False)
         env.count("cmp_reopen_ok")
